@@ -163,6 +163,42 @@ def run(run, thorough):
     total = 0
     for scn, meta in zip(scns, metas):
         sweep(run, scn, meta, max_points=None if thorough else 40)
+    # directed: the real clock moves while trash-empty DAYS runs, and an entry's date is exactly now - DAYS at the first reading: one
+    # decision per entry - it is kept whole (or purged whole), at every crash point
+    import random as _random_mod
+    lay = scen.Layout(_random_mod.Random(3), nvols=1, nested=False, xdg='unset', home_on_own_volume=False, uid=0)
+    nodes = scen.canary()
+    ents = []
+    for nm, date, pk in (('edge', '2024-05-31T00:00:00', 'd'), ('old', '2001-01-01T00:00:00', 'f'), ('young', '2024-05-31T12:00:00', 'f')):
+        nodes += scen.entry(lay.home_trash, nm, '/r/' + nm, date, pk)
+        ents.append({'td': lay.home_trash, 'name': nm, 'full': '/r/' + nm, 'payload': pk})
+    # directed: while trash-rm is removing a trashed directory, another purge (killed a moment later) takes files out of it: the removal
+    # fails in the middle with "no such file" - the entry keeps its .trashinfo as long as anything of the payload is left
+    nodes2 = scen.canary() + scen.entry(lay.home_trash, 'tree', '/r/tree', '2001-01-01T00:00:00', 'd')
+    pay = lay.home_trash + '/files/tree'
+    scn2 = lay.scenario([{'cmd': 'rm', 'argv': ['tree'], 'listdir': 'sorted'}], cwd='/', extra=nodes2)
+    base2 = sandbox.execute(scn2)
+    if base2.get('steps'):
+        nm2 = base2['steps'][0].get('nmut', 0)
+        vic = [pay + '/sub/deep', pay + '/sub/dangling', pay + '/sub/rel_up', pay + '/sub/to_canary_dir', pay + '/inner', pay + '/to_canary_file']
+        raced = []
+        for k in range(1, nm2 + 1):
+            s3 = copy.deepcopy(scn2)
+            s3['steps'][0]['plan'] = {'midfs': {'after': k, 'ops': [['remove', v] for v in vic]}}
+            raced.append(s3)
+        for s3, r in zip(raced, sandbox.execute_many(raced) if raced else []):
+            if not r.get('steps'):
+                continue
+            run.count('raced-purge')
+            snap = r['steps'][0]['after']
+            e = engine.entries_of(snap, lay.home_trash).get('tree')
+            if e is not None and e['payload'] is not None and e['info'] is None:
+                run.fail('oracle', 'trash-rm removed the .trashinfo although part of the payload is still under files/ (its removal had failed: '
+                         'another purge was taking files out of the same directory)', {'scenario': s3, 'exit': r['steps'][0]['exit'],
+                         'stderr': r['steps'][0]['stderr'][-300:]}, key='payload-without-info', section='raced-purge')
+    for tick in (1, 3600):
+        scn = lay.scenario([{'cmd': 'empty', 'argv': ['1'], 'listdir': 'sorted', 'now': [2024, 6, 1, 0, 0, 0, 0], 'tick': tick}], cwd='/', extra=nodes)
+        sweep(run, scn, {'cmd': 'empty', 'ents': ents, 'cross': False}, section='moving-clock')
     if scns:
         run.sample({'level': 'crash', 'step': [scns[0]['steps'][0]['cmd'], scns[0]['steps'][0]['argv'], esc(scns[0]['steps'][0].get('stdin') or '')],
                     'entries': [[esc(e['full']), e['payload']] for e in metas[0]['ents']]})
@@ -175,6 +211,20 @@ def replay(run, payload):
         return
     meta = case.get('meta') or {}
     cmd = scn['steps'][0]['cmd']
+    pl = scn['steps'][0].get('plan') or {}
+    if pl.get('midfs') or pl.get('midlib'):
+        # somebody else interferes at one given point: that run itself is the case, there are no crash points to sweep
+        r = sandbox.execute(scn)
+        if r.get('steps'):
+            o = r['steps'][0]
+            print(cmd, scn['steps'][0]['argv'], 'exit', o['exit'], 'mutations', o.get('muts'))
+            snap = o['after']
+            for td in engine.trash_dirs_in(snap):
+                for name, e in engine.entries_of(snap, td).items():
+                    if e['payload'] is not None and e['info'] is None and engine.entries_of(r['before'], td).get(name, {}).get('info') is not None:
+                        run.fail('oracle', 'the .trashinfo was removed although part of the payload is still under files/', {'scenario': scn, 'name': esc(name)},
+                                 key='payload-without-info', section='replay')
+        return
     if 'ents' not in meta:
         # reconstruct the entries from the tree
         ents = []
